@@ -14,7 +14,8 @@ PATTERNS = [
 RX = [re.compile(p, re.S) for p in PATTERNS]
 
 def wf_line(l):
-    return any(r.fullmatch(l) for r in RX)
+    # iauth_send formats every message into char msg[1024]: a single message is at most 1023 bytes
+    return len(l) <= 1023 and any(r.fullmatch(l) for r in RX)
 
 def canon_addr(text):
     """the 128-bit value an address text denotes; IPv4 and IPv4-compatible forms canonicalise to IPv4-mapped"""
@@ -78,6 +79,14 @@ def run(chk):
             return ("step %d (%s): client messages are addressed differently from the model: daemon %r, model %r" % (i, step_label(scn, i), dp, mp), True)
         return None
     analyse(chk, drv, impl, scns, ms, ds, project=proj, judge=judge, monitor=monitor, what="server channel: ", nontrivial=lambda scn, d: tuple(l for s in d.steps for l in s[0]) or None)
+    # messages at the 1023-byte limit of the output buffer: every reply kind with texts around and beyond the limit
+    lim = []
+    for kind in ("MORE", "AGAIN", "NO"):
+        for n in [980, 995, 1000, 1003, 1004, 1005, 1006, 1010, 1023, 1024, 1100, 3000]:
+            lim.append(Scn(True, False, [('a.svc', 'login')], [], 0, L("7 C 10.1.2.3 4242 10.0.0.1 6667", "7 P :+x acct pw", "-1 X a.svc 7_1 :%s %s" % (kind, "z" * n), "7 H", "7 D"), "message length boundary"))
+            chk.hist("length boundary")
+    ml = run_model(drv, lim); dl = run_daemons(impl, lim)
+    analyse(chk, drv, impl, lim, ml, dl, project=proj, judge=judge, monitor=monitor, what="server channel (buffer limit): ", nontrivial=lambda scn, d: tuple(len(l) for s_ in d.steps for l in s_[0]) or None)
     # announced addresses: every textual form; the echoed text must denote the announced address
     rng = chk.rng
     addr_scns = []
